@@ -619,6 +619,12 @@ def classify(ctx, spec, tags, info):
             ctx.violation(TAGS[11], {'spec': dict(spec, points=info['points'], code=info['code']), 'code': info['code'], 'tags': sorted(tags),
                                      'tag_meaning': TAGS[11], 'kind': 'code'})
             return 'violation'
+    if corr and 11 not in tags and false_guards and 1011 not in tags:
+        # DESIGN.md section 3: on a guard-false input the implementation is compared with the SPEC first; it agrees
+        # with the reference semantics here, i.e. the defect class of that guard has been repaired in /repo and only
+        # the (faithful-to-the-old-code) model disagrees: never an alarm
+        ctx.coverage['guard_false_agrees_with_spec'] = ctx.coverage.get('guard_false_agrees_with_spec', 0) + 1
+        return 'ok'
     if corr:
         ctx.broken.append('correspondence C01 translate vs code_record._parse_tree: '
                           + ', '.join(TAGS[t] for t in corr) + ' on ' + json.dumps(info['code']))
